@@ -45,7 +45,7 @@ func c20Abs(x int) int {
 //@ func oracleC20Endpoints
 //@   props C20
 //@   oracle
-func oracleC20Endpoints(kind int, idSel int, verSel int, statusSel int, count int, useAt bool, zoneHours int, limiter bool) {
+func oracleC20Endpoints(kind int, idSel int, verSel int, statusSel int, count int, useAt bool, zoneHours int, limiter bool, noClient bool) {
 	id := int64(c20Abs(idSel)%100000 + 1)
 	ver := c20Abs(verSel)%50 + 1
 	statuses := []int{200, 200, 200, 404, 403, 410, 414, 500, 401, 204, 301}
@@ -132,6 +132,9 @@ func oracleC20Endpoints(kind int, idSel int, verSel int, statusSel int, count in
 	}))
 	defer srv.Close()
 	ds := &Datasource{BaseURL: srv.URL + "/base", Client: srv.Client()}
+	if noClient {
+		ds.Client = nil // the default datasource's client is used; everything else stays this datasource's own
+	}
 	lim := &c20Limiter{reqs: &reqs}
 	if limiter {
 		ds.Limiter = lim
